@@ -9,6 +9,7 @@ Only property theorems and non-vacuity examples live here; helper lemmas are in 
 (counting bridges `sumFall2_counts`, `sumFall3_counts`, `crossCount_counts`, `counts_sum` in
 Proofs/Prob7.lean, Proofs/Prob8.lean; moments in Proofs/Prob5.lean, Prob6.lean, Prob9.lean).
 -/
+import Prs.Proofs.FormulasPc
 import Prs.Proofs.Prob9
 import Mathlib.Data.Fin.VecNotation
 import Mathlib.Algebra.BigOperators.Field
@@ -165,6 +166,21 @@ example : sumFall2 (counts [1, 2, 1, 1]) = 6 ∧ sumFall3 (counts [1, 2, 1, 1]) 
 example : ∑ x : Fin 4 → Fin 2, w ![1/2, 1/2] x * varpcN (counts (List.ofFn x))
     = ∑ x : Fin 4 → Fin 2, w ![1/2, 1/2] x * (pc1 (List.ofFn x)) ^ 2
       - (∑ k, (![1/2, 1/2] : Fin 2 → ℚ) k ^ 2) ^ 2 := C06_var_unbiased _ coin (le_refl 4)
+
+/-! ### the sources of `pc_n` / `varpc_n`, as translated from pyrepseq/stats.py on this run, are the models -/
+
+/-- the estimator the unbiasedness theorems are about is the one the source computes -/
+theorem C06_source_pc_n (n : List ℕ) : Generated.pc_n (castCounts n) = pcN n := gen_pc_n_eq n
+
+/-- `varpc_n` of pyrepseq/stats.py (Generated/FormulasPc), every coefficient included, is the modelled `varpcN` -/
+theorem C06_source_varpc_n (n : List ℕ) : Generated.varpc_n (castCounts n) = varpcN n := gen_varpc_n_eq n
+
+/-- hence the variance estimator of the source is unbiased (`C06_var_unbiased` transported to the generated definition) -/
+theorem C06_source_var_unbiased (p : Fin K → ℚ) (hp : ∑ k, p k = 1) (hN : 4 ≤ N) :
+    ∑ x : Fin N → Fin K, w p x * Generated.varpc_n (castCounts (counts (List.ofFn x)))
+      = ∑ x : Fin N → Fin K, w p x * (pc1 (List.ofFn x)) ^ 2 - (∑ k, p k ^ 2) ^ 2 := by
+  simp only [C06_source_varpc_n]
+  exact C06_var_unbiased p hp hN
 
 end Prs
 
